@@ -5,6 +5,8 @@ quantifier) and one-line summaries of changes already proposed, nothing else fro
 import glob, json, os, sys
 V = os.path.dirname(os.path.abspath(__file__))
 pid, wt, out = sys.argv[1:4]
+# optional 4th argument: a file with one paragraph of extra guidance for this round ("focus")
+focus = open(sys.argv[4]).read().strip() + "\n\n" if len(sys.argv) > 4 else ""
 prop = [json.loads(l) for l in open(os.path.join(V, "properties.jsonl")) if l.strip()]
 p = [x for x in prop if x["id"] == pid][0]
 prev = []
@@ -13,5 +15,5 @@ for d in sorted(glob.glob(os.path.join(V, "seeded", pid + "-*"))):
     s = (m.get("summary") or m.get("description") or "")[:260]
     prev.append("- %s  (files: %s)" % (s, ", ".join(m.get("files_changed", []))))
 tmpl = open(os.path.join(V, "seedprompt.tmpl")).read()
-print(tmpl.replace("@WT@", wt).replace("@OUT@", out).replace("@ID@", pid).replace("@TITLE@", p["title"])
+print(tmpl.replace("@FOCUS@", focus).replace("@WT@", wt).replace("@OUT@", out).replace("@ID@", pid).replace("@TITLE@", p["title"])
       .replace("@STATEMENT@", p["statement"]).replace("@QUANT@", p["quantifier"]["text"]).replace("@PREV@", "\n".join(prev)))
